@@ -12,6 +12,25 @@ from . import c14 as _c14
 TSF_BASE = "sktime.series_as_features.base.estimators.interval_based._tsf"
 
 
+def rows2(a, sym_or_str=False):
+    """a 2-D result as a list of rows; anything else (a collapsed axis) is reported by its shape"""
+    import numpy as np
+
+    sh = list(np.shape(a))
+    if len(sh) != 2:
+        return {"bad_shape": sh}
+    return [[S(v) for v in row] for row in a.tolist()]
+
+
+def vec1(a):
+    import numpy as np
+
+    sh = list(np.shape(a))
+    if len(sh) != 1:
+        return {"bad_shape": sh}
+    return [v if isinstance(v, str) else S(v) for v in a.tolist()]
+
+
 class C17(Harness):
     pid = "C17"
     labels = (
@@ -161,7 +180,7 @@ class C17(Harness):
                     me.predict_proba = lambda X: C.predict_proba(me, X)
                     proba = C.predict_proba(me, X3)
                     pred = C.predict(me, X3)
-                    return {"proba": [[S(v) for v in row] for row in proba.tolist()], "pred": [S(v) if not isinstance(v, str) else v for v in pred.tolist()], "features_seen": seen[:ne], "classes": labels[:nk]}
+                    return {"proba": rows2(proba), "pred": vec1(pred), "features_seen": seen[:ne], "classes": labels[:nk]}
                 R = W.load("sktime.regression.interval_based._tsf").TimeSeriesForestRegressor
                 pred = R.predict(me, X3)
                 return {"pred": [S(v) for v in np.asarray(pred).tolist()]}
@@ -182,7 +201,7 @@ class C17(Harness):
 
                 CE = W.load("sktime.classification.compose._column_ensemble").ColumnEnsembleClassifier
                 Xn, _ = _c14.HARNESS._nested(inp["x"])
-                ys = np.array((labels[:nk] * 3)[: max(ni, nk)])
+                ys = np.array((list(reversed(labels[:nk])) * 3)[: max(ni, nk)])  # first appearances are not in sorted order
                 Xfit, _ = _c14.HARNESS._nested([inp["x"][i % ni] for i in range(len(ys))])
                 if inp.get("dup_names"):  # two univariate panels put side by side carry the same default column label
                     Xn.columns = ["dim_0", "dim_0"]
@@ -197,7 +216,7 @@ class C17(Harness):
                 del seen[:]
                 proba = ce.predict_proba(Xn)
                 pred = ce.predict(Xn)
-                return {"proba": [[S(v) for v in row] for row in proba.tolist()], "pred": [v if isinstance(v, str) else S(v) for v in pred.tolist()], "members_saw": seen[:ne], "classes": [v if isinstance(v, str) else int(v) for v in ce.classes_.tolist()]}
+                return {"proba": rows2(proba), "pred": vec1(pred), "members_saw": seen[:ne], "classes": [v if isinstance(v, str) else int(v) for v in ce.classes_.tolist()], "labels_sorted": labels[:nk]}
             if k == "base-predict-score":
                 from sklearn.preprocessing import LabelEncoder
 
@@ -273,6 +292,9 @@ class C17(Harness):
             return
 
         def wellformed(proba, classes):
+            if isinstance(proba, dict):
+                P.check("proba-well-formed", False, {"what": "one row per instance, one column per class", "shape": proba["bad_shape"]})
+                return False
             P.check("proba-well-formed", len(proba) == ni and all(len(r) == len(classes) for r in proba))
             for r in proba:
                 P.eq("proba-well-formed", sum(r), 1)
@@ -280,6 +302,9 @@ class C17(Harness):
                     P.check("proba-well-formed", (v >= 0) & (v <= 1))
 
         def pred_ok(pred, proba, classes):
+            if isinstance(pred, dict) or isinstance(proba, dict):
+                P.check("predict-in-label-set", False, {"what": "one label per instance", "shape": (pred if isinstance(pred, dict) else proba)["bad_shape"]})
+                return
             P.check("predict-in-label-set", len(pred) == ni and all(q in classes for q in pred), {"pred": [str(q) for q in pred]})
             for i in range(min(ni, len(pred))):
                 if pred[i] in classes:
@@ -289,7 +314,8 @@ class C17(Harness):
 
         if k == "tsf-proba":
             proba = out["proba"]
-            wellformed(proba, out["classes"])
+            if wellformed(proba, out["classes"]) is False:
+                return
             for i in range(ni):
                 for c in range(nk):
                     P.eq("proba-is-average-of-trees", proba[i][c], sum(p[e][i][c] for e in range(ne)) / ne)
@@ -301,7 +327,9 @@ class C17(Harness):
             return
         if k == "column-ensemble":
             proba = out["proba"]
-            wellformed(proba, out["classes"])
+            P.check("proba-well-formed", out["classes"] == out["labels_sorted"], {"what": "classes_ sorted, columns ordered like classes_", "classes_": [str(c) for c in out["classes"]]})
+            if wellformed(proba, out["classes"]) is False:
+                return
             for i in range(ni):
                 for c in range(nk):
                     members_p = [p[0 if inp.get("shared_estimator") else e][i][c] for e in range(ne)]
